@@ -26,16 +26,18 @@ def tasks(tier):
     for known in (0, 1):
         for other in (0, 1):
             ts.append(Task('verifHarness_C16_request', [known, other]))
+    ts += [Task('verifHarness_C16_two', [s]) for s in (0, 1)]
     return ts
 
 
 def required_reach(tier):
-    return ['C16/HS1', 'C16/H2', 'C16/S2']
+    return ['C16/HS1', 'C16/H2', 'C16/S2', 'C16/S3']
 
 
 def bounds(tier):
     return {'enable': '6 dialect kinds (none, standard, no id 0, non-standard id 0, heartbeat only, non-standard id 66) x heartbeat disabled x stream requests enabled',
             'tick': 'one tick; configured period, system type, autopilot type (bytes) and dialect version symbolic',
+            'two_heartbeats': 'two ArduPilot heartbeats in a row from the same sender or from two components of one system, arbitrary clock readings: the second triggers again iff the sender differs or >= 30 s passed',
             'request': 'one incoming frame: sender ids, autopilot byte, type, configured frequency, clock reading and the sender\'s '
                        'table entry (absent / present with an arbitrary earlier time) symbolic; an unrelated table entry is checked untouched'}
 
